@@ -4,7 +4,7 @@ compiled FFI never crashes or reads outside the string.
 Theorems (lean/CffiVerif/Props/C30.lean): tokenizer_reads_in_bounds, token_stream_in_bounds,
 search_standard_typename_reads_inside_token, error_location_in_string, bad_type_buffer_exact,
 dfa_is_the_regex, define_literal_ok_iff, define_errors_are_cdef_errors,
-const_errors_are_cffi_errors_partial (+ the two counterexamples of the full statement),
+const_errors_are_cffi_errors_partial (+ hex_float_is_cdef_error and the counterexample of the full statement),
 division_by_zero_is_cdef_error, negative_shift_is_cdef_error.
 
 Tie to the code:
@@ -40,8 +40,8 @@ MANIFEST = {
             "'string + terminator and nothing else' no read is outside and every token stays inside the string; "
             "_ffi_bad_type stores exactly the bytes it allocates; a #define value accepted by _r_int_literal (DFA proved "
             "equal to the regular expression) becomes an integer exactly when it is a C literal and CDefError otherwise; "
-            "every error of the constant evaluator is CDefError/FFIError (except two known classes proved as "
-            "counterexamples).  Tied to the code by running the repo's tokenizer/parser against guard pages (string and opcode "
+            "every error of the constant evaluator is CDefError/FFIError (except one known class, huge left shifts, "
+            "proved as a counterexample).  Tied to the code by running the repo's tokenizer/parser against guard pages (string and opcode "
             "buffer) and against the "
             "model, the compiled FFI's typeof (also under ASan/UBSan in the thorough tier), and thousands of generated and "
             "mutated cdef texts / type strings whose escaping exception types are checked.",
@@ -76,27 +76,20 @@ def _is(case, exc, site, api=None):
 
 
 # Known-finding classes on the unchanged tree, keyed by (exception type, innermost cffi call site[, api]).
+# Repaired in /repo and therefore NOT classes any more (their witnesses stay in X_FIXED_*, so a regression is a
+# VIOLATION): typeof('') / typeof('#define X 1') (7761d12), typeof('...') (ce0979e), hexadecimal floating
+# constants (153798b), the reserved name __dotdotdot__ (ed2cb2a), lone surrogates / output[-1] (ff60788, 302c223).
 CLASSES = {
-    # in-line typeof(''): `ast.ext[-1].type.args` is None
-    "C30/typeof-empty-attributeerror": lambda c: _is(c, "AttributeError", "parse_type_and_quals", "typeof"),
-    # in-line typeof('...'): `typenode.coord.line` with coord None while building an FFIError
-    "C30/typeof-dotdotdot-attributeerror": lambda c: _is(c, "AttributeError", "_get_type_and_quals", "typeof"),
     # pycparser 3.00: 'Struct' object has no attribute 'names' (`float struct zz` in a parameter list)
     "C30/pycparser-attributeerror": lambda c: _is(c, "AttributeError", "_parse"),
     # pycparser 3.00: `#line 3u` / `# 3u "f.h"`: int('3u') in the lexer's line-directive handling
     "C30/pycparser-line-directive-valueerror": lambda c: _is(c, "ValueError", "_parse"),
-    # in-line typeof('#define X 1'): `assert not macros`
-    "C30/typeof-define-assertionerror": lambda c: _is(c, "AssertionError", "parse_type_and_quals", "typeof"),
-    # `typedef int __dotdotdot__;` and friends: `assert '__dotdotdot__' not in name.split()`
-    "C30/dotdotdot-name-assertionerror": lambda c: _is(c, "AssertionError", "_declare"),
     # '} s' and other texts that close the wrapper declaration: an assert inside pycparser, called from _parse
     "C30/pycparser-assertionerror": lambda c: _is(c, "AssertionError", "_parse"),
     # in-line typeof: backend errors for well-formed but invalid types are not wrapped
     "C30/inline-typeof-backend-valueerror": lambda c: _is(c, "ValueError", "global_cache", "typeof"),
     "C30/inline-typeof-backend-typeerror": lambda c: _is(c, "TypeError", "global_cache", "typeof"),
     "C30/inline-typeof-backend-overflowerror": lambda c: _is(c, "OverflowError", "global_cache", "typeof"),
-    # hexadecimal floating constant: int(s, 16) raises inside the `except ValueError:` block
-    "C30/hexfloat-valueerror": lambda c: _is(c, "ValueError", "_parse_constant"),
     # 1 << 99999999999999999999
     "C30/huge-shift-overflowerror": lambda c: _is(c, "OverflowError", "_parse_constant"),
     # UBSan: `&ctx->typenames->name` etc. with a NULL table (an FFI without declarations): address of a member
